@@ -50,6 +50,14 @@ def opsRunner : List String → Option (String × String)
     let (tr, n, fin) := (script.splitOn ",").foldl step (setCyclicTrace, 0, none)
     some (s!"{fin.getD "nil"} viol=0 frames={n} frames-after-hook trace={",".intercalate tr}", "-")
   | ["rcyc", _] => some ("ok nil viol=0", "-")
+  | ["rrun2", k, _] => do
+    -- k event messages, one accepted request each, all in flight together: exactly one frame per message, carrying
+    -- the state its own before-transmit hook left (base + 1)
+    let k ← k.toNat?
+    let frames := (List.range k).map fun i =>
+      let st := (i + 1) * 0x0101010101010101 + 1
+      s!"{16 + i}:{bytesHex ((List.range 8).map fun j => UInt8.ofNat ((st >>> (8 * j)) % 256))}"
+    some (s!"nil viol=0 frames={",".intercalate frames}", "-")
   | ["rrun", mode, _] =>
     if mode == "cancel" then some ("nil conn-closed no-leak viol=0 peer-frames=1 rx-hooks=3", "-")
     else if mode == "hookerr" || mode == "hookerr-closed" then
